@@ -176,7 +176,7 @@ func init() {
 		genC: func(r *rand.Rand, kind string, idx int64, tier string) DCase {
 			_, sut := splitKind(kind)
 			w, b := geometry(r, idx)
-			g := &DGen{SUT: sut, W: w, B: b, N: 40 + r.Intn(40), MaxItem: 2 + r.Intn(2*b)}
+			g := &DGen{SUT: sut, W: w, B: b, N: 40 + r.Intn(40), MaxItem: 2 + r.Intn(2*b), BigItems: r.Intn(3) == 0}
 			ops := GenDOps(r, g)
 			if sut == "decoder" {
 				fitLiterals(ops, b-w)
@@ -229,7 +229,7 @@ func init() {
 		genC: func(r *rand.Rand, kind string, idx int64, tier string) DCase {
 			_, sut := splitKind(kind)
 			w, b := geometry(r, idx)
-			g := &DGen{SUT: sut, W: w, B: b, N: 30 + r.Intn(40), MaxItem: 2 + r.Intn(b), NoReset: r.Intn(3) > 0}
+			g := &DGen{SUT: sut, W: w, B: b, N: 30 + r.Intn(40), MaxItem: 2 + r.Intn(b), NoReset: r.Intn(3) > 0, BigItems: r.Intn(3) == 0}
 			ops := GenDOps(r, g)
 			if sut == "buffer" {
 				// fill up and read before block operations
@@ -336,7 +336,7 @@ func (p *c18prop) Gen(kind string, idx int64, seed int64, tier string) core.Case
 	if k == "random" {
 		n = 10 + r.Intn(30)
 	}
-	g := &DGen{SUT: "decoder", W: w, B: b, N: n, MaxItem: 2 + r.Intn(b), OnlyValid: true, NoReset: true}
+	g := &DGen{SUT: "decoder", W: w, B: b, N: n, MaxItem: 2 + r.Intn(b), OnlyValid: true, NoReset: true, BigItems: r.Intn(2) == 0}
 	ops := GenDOps(r, g)
 	fitLiterals(ops, b-w)
 	// writes larger than a flushed buffer are allowed: Decoder.Write chunks
@@ -497,6 +497,10 @@ func (p *c07prop) gen(r *rand.Rand, kind string, idx int64) C07Case {
 		w, b := geometry(r, idx)
 		g := &DGen{SUT: "decoder", W: w, B: b, N: 10 + r.Intn(25), MaxItem: 2 + r.Intn(3*b), BigItems: r.Intn(2) == 0, OnlyValid: true, NoReset: r.Intn(2) == 0}
 		ops := GenDOps(r, g)
+		if r.Intn(4) > 0 {
+			// sequences that fit a flushed buffer; literal runs of any size
+			fitLiterals(ops, b-w)
+		}
 		return C07Case{Syn: &DCase{WS: w, BS: b, SUT: "decoder", Ops: ops}}
 	default:
 		class, typ := splitKind(kind)
